@@ -425,20 +425,40 @@ func (in *Interp) mapData(st *State, m MapV) *MapData {
 // plus the not-found case.
 func (in *Interp) lookupAlts(st *State, m MapV, k Value, zero Value) (alts []Alt, found []bool) {
 	md := in.mapData(st, m)
+	// A lookup with the same key term on the same (unchanged) map repeats the
+	// outcome chosen earlier on this path.
+	var memoKey string
+	if kt, ok := k.(*smt.Term); ok && !kt.IsConst() {
+		memoKey = fmt.Sprintf("lk:%p:%d", md, kt.ID())
+		if prev, ok := st.Ghost[memoKey].(int); ok {
+			if prev < 0 {
+				return []Alt{{Ret: zero}}, []bool{false}
+			}
+			if prev < len(md.Entries) {
+				return []Alt{{Ret: md.Entries[prev].V}}, []bool{true}
+			}
+		}
+	}
+	record := func(i int) func(st *State) {
+		if memoKey == "" {
+			return nil
+		}
+		return func(st *State) { st.Ghost[memoKey] = i }
+	}
 	var neqs []*smt.Term
-	for _, e := range md.Entries {
+	for i, e := range md.Entries {
 		c := valueEq(e.K, k)
 		if c.IsFalse() {
 			continue
 		}
-		alts = append(alts, Alt{Cond: c, Ret: e.V})
+		alts = append(alts, Alt{Cond: c, Ret: e.V, Eff: record(i)})
 		found = append(found, true)
 		if c.IsTrue() {
 			return alts, found
 		}
 		neqs = append(neqs, smt.Not(c))
 	}
-	alts = append(alts, Alt{Cond: smt.And(neqs...), Ret: zero})
+	alts = append(alts, Alt{Cond: smt.And(neqs...), Ret: zero, Eff: record(-1)})
 	found = append(found, false)
 	return alts, found
 }
